@@ -28,7 +28,12 @@ ASSUMPTIONS = ["inputs are dyadic rationals of small magnitude so float + - * an
                "reduce_dims / preserve_dims are passed in every spelling (absent, explicit None, 'all', a bare dimension name, "
                "lists incl. every-dim and empty lists); the harness reads the DOCUMENTED meaning of the request (reduce_set), "
                "the dimension bookkeeping itself is C01",
-               "weights carry no dimension the data lacks (F9) and are non-negative"]
+               "weights carry no dimension the data lacks (F9) and are non-negative",
+               "storage dtypes (int64 / int32 / int16 / int8 / bool / float32, mixed per data operand; uint8 / uint16 in a batch "
+               "of their own) hold exactly representable values; the expected score is that of the VALUES (the Lean model / Spec "
+               "have no storage dtype) and equals the result for float64 storage; weights stay float64 and fractional; 1e-5 where "
+               "the library legitimately computes in float32, 1e-9 otherwise; three dtype defect classes of the unchanged code "
+               "(F-C05a/b/c, notes/C05.md) are tagged known findings and skipped in the correspondence"]
 MANIFEST = dict(
     level="proof",
     text="Kernel-checked Lean theorems about the pointwise kernels regenerated from functions.py, standard_impl.py, "
@@ -48,7 +53,11 @@ MANIFEST = dict(
          "between two public functions (rmse^2 = mse linear and angular, interval = quantile-interval at symmetric levels, "
          "interval = scaled pinball sum, obs on an end = mean width, pinball(1/2) = mae/2, mean_error = additive_bias, "
          "pbias = 100(multiplicative_bias - 1), angular score = linear score of the angular difference, pandas = xarray entry "
-         "point, one request = the same request written as lists) are evaluated under the same product of spellings and weights.",
+         "point, one request = the same request written as lists) are evaluated under the same product of spellings and weights.  "
+         "Storage dtypes: every function (xarray and pandas entry points, interval ends included) is also fed the same labelled "
+         "values stored as int64 / int32 / int16 / int8 / bool / float32 / float64, mixed per operand (integer storage next to "
+         "fractional float storage, fractional float64 weights, every request spelling), and uint8 / uint16 in a separate batch: "
+         "against the model, against the textbook Spec of the values, and against the run on float64 storage.",
     note="Trusted: Lean kernel; propext/Classical.choice/Quot.sound; py2lean translator; SV.Fl (IEEE minus rounding, overflow, "
          "signed zero); the hand model of apply_weights/broadcast_and_match_nan/mean(skipna)/std/xr.corr on one fibre (tied by "
          "correspondence only; the harness does broadcasting and grouping, dimension handling itself is C01); sqrt is "
@@ -56,14 +65,22 @@ MANIFEST = dict(
          "evaluated on float sigma and rho, and the sqrt theorems are about the formula over the reals, not libm; dyadic "
          "inputs, tolerance 1e-9; the meaning of each request spelling is the harness's reading of the documentation "
          "(reduce_set); weights never carry a dimension the data lacks (F9); Dataset inputs and coordinate alignment are not "
-         "generated.",
+         "generated.  Storage dtypes are not modelled (model and Spec are functions of the exact values): that input class is "
+         "compared by the oracle, at 1e-5 where the library legitimately computes in float32 (float32 operand; <= 16-bit integer "
+         "operands of the functions that mask with .where first), 1e-9 otherwise; three defect classes of the unchanged code, "
+         "decided from the input alone (dtype_defect: int8 arithmetic overflow F-C05a, unsigned wrap-around F-C05b, bool - bool "
+         "TypeError F-C05c; notes/C05.md), are tagged known findings and skipped in the correspondence.",
     technique="Lean 4 theorems over translator-regenerated kernels + hand reduction model + differential correspondence + exact Spec oracle",
     design="6/C05")
 RULE = ("random labelled arrays (1-2 dims, sizes 1-5) over a dyadic pool with 40-60 % of observations copied from the "
         "forecast / an interval end, NaN in every slot, optional weights, reduce/preserve requests in every spelling "
         "(absent, None, 'all', bare name, lists, every-dim list, empty list); plus a systematic sweep function x request "
         "spelling x without/with non-0/1 weights, and relational laws walked round-robin through the same product; "
-        "parameters from pools containing both sides of each boundary; distinct = distinct canonical case; "
+        "parameters from pools containing both sides of each boundary; the same generators with drawn storage dtypes per data "
+        "operand (float32 / float32-float64 mixtures on the dyadic values; integer-valued data - rounded or scaled by 4, ties "
+        "and interval order kept - in one integer dtype, independent int64..int8 / float / bool dtypes, or integer storage next to "
+        "fractional float storage; unsigned storage on shifted non-negative values in its own batch; NaN only in float storage); "
+        "distinct = distinct canonical case; "
         "non-trivial = at least one output cell is not NaN and the case is not in the malformed stream")
 
 NAN = float("nan")
@@ -83,9 +100,15 @@ def F(s):
     return float(v)
 
 
-def mk(spec):
-    """{"dims": [...], "shape": [...], "data": [str...]} -> DataArray (no coordinates)"""
+def mk(spec, dtype=None):
+    """{"dims": [...], "shape": [...], "data": [str...]} -> DataArray (no coordinates), stored in numpy dtype `dtype`
+    (default float64); every value must be exactly representable there (the VALUES never change with the storage)"""
     a = np.array([F(s) for s in spec["data"]], dtype=float).reshape(spec["shape"])
+    if dtype not in (None, "float64"):
+        b = a.astype(dtype)
+        if not np.array_equal(b.astype(float), a, equal_nan=True):
+            raise AssertionError(f"value not representable in storage dtype {dtype}: {spec['data']}")
+        a = b
     return xr.DataArray(a, dims=[str("".join(list(d))) for d in spec["dims"]])
 
 
@@ -414,7 +437,209 @@ def sweep_cases(rng, rounds=1):
     return out
 
 
+# ----------------------------------------------------------------------------- storage dtypes
+# The VALUES of a case are the exact rationals in case[operand]["data"]; case["dtypes"] = {operand: numpy dtype name} only
+# says in which dtype each data operand (fcst / obs / lower / upper) is STORED when handed to the library (weights stay
+# float64 and fractional, parameters stay Python floats).  Every value is exactly representable in its storage dtype
+# (integers in the integer dtypes, 0/1 in bool, small dyadics in float32, NaN only in float storage), so the expected
+# result - model and textbook Spec work on exact rationals - depends on the values only.
+SIGNED = ["int64", "int32", "int16", "int8"]
+UNSIGNED = ["uint8", "uint16"]
+FLOATS = ["float32", "float64"]
+NO_SUBTRACT = ("multiplicative_bias", "pbias", "pearsonr", "kge")     # mask with .where (-> floating point) before any arithmetic
+SQUARING = ("mse", "rmse", "mse_ang", "rmse_ang", "pandas_mse", "pandas_rmse", "pandas_mse_ang", "pandas_rmse_ang")
+DEFECTS = {"F-C05a": "narrow signed integer storage: the library's own difference / square / `% 360` runs in int8 (int16)",
+           "F-C05b": "unsigned storage: fcst - obs (interval end - obs) wraps around where it is negative; uint8 cannot hold 360",
+           "F-C05c": "bool - bool: numpy refuses boolean subtraction (TypeError)"}
+
+
+def data_ops(case):
+    return ("lower", "upper", "obs") if case["kind"] in ("qis", "interval") else ("fcst", "obs")
+
+
+def dtype_of(case, name):
+    return ((case.get("dtypes") or {}).get(name)) or "float64"
+
+
+def is_angular_kind(kind):
+    return kind.endswith("_ang")
+
+
+def rounded(s, scale):
+    """the protocol value s scaled and rounded half-up to an integer (NaN stays NaN); monotone, so order and ties between
+    operands survive"""
+    if s == "nan":
+        return s
+    return S(Fraction(math.floor(Fraction(s) * scale + Fraction(1, 2))))
+
+
+def ang360(a):
+    return a - 360 * math.floor(a / 360)
+
+
+def dtype_defect(case):
+    """id of the documented defect class of the UNCHANGED code the case lies in (notes/C05.md), or None.  Decided from the
+    input alone: the dtype numpy gives the library's first subtraction (np.result_type of the two storage dtypes) and the
+    exact values of the differences / squares it then has to hold."""
+    dts = case.get("dtypes")
+    kind = case["kind"]
+    if not dts or kind in NO_SUBTRACT:
+        return None
+    ops = data_ops(case)
+    pairs = [("upper", "lower"), ("lower", "obs"), ("obs", "upper")] if len(ops) == 3 else [("fcst", "obs")]
+    _, _, lay = full_layout(case, list(ops))
+    ang = is_angular_kind(kind)
+    for a, b in pairs:
+        rt = np.result_type(np.dtype(dtype_of(case, a)), np.dtype(dtype_of(case, b)))
+        if rt == np.dtype(bool):
+            return "F-C05c"
+        if rt.kind not in "iu":
+            continue
+        did = "F-C05b" if rt.kind == "u" else "F-C05a"
+        lim = int(np.iinfo(rt).max)
+        if ang and lim < 360:
+            return did
+        for x, y in zip(lay[a], lay[b]):
+            d = Fraction(x) - Fraction(y)
+            if (rt.kind == "u" and d < 0) or abs(d) > lim:
+                return did
+            if ang:
+                d = min(ang360(abs(d)), 360 - ang360(abs(d)))
+            if kind in SQUARING and d * d > lim:
+                return did
+    return None
+
+
+def loose(case):
+    """the library legitimately computes in float32 (rounding is not modelled): float32 storage of a data operand, or an
+    integer / bool operand of at most 16 bits in a function that masks with .where first (xarray promotes those to float32)"""
+    dts = case.get("dtypes")
+    if not dts:
+        return False
+    ds = [dtype_of(case, k) for k in data_ops(case)]
+    if "float32" in ds:
+        return True
+    return case["kind"] in NO_SUBTRACT and any(np.dtype(d).itemsize <= 2 for d in ds)
+
+
+def tol_of(case):
+    return 1e-5 if loose(case) else 1e-9
+
+
+def dtype_class(case):
+    if not case.get("dtypes"):
+        return "dtype:all-float64"
+    ds = [dtype_of(case, k) for k in data_ops(case)]
+    if any(d in UNSIGNED for d in ds):
+        return "dtype:unsigned-operand"
+    if "bool" in ds:
+        return "dtype:bool-operand"
+    if all(d in FLOATS for d in ds):
+        return "dtype:float32-all" if set(ds) == {"float32"} else "dtype:float32-float64-mixed"
+    if len(set(ds)) == 1:
+        return "dtype:uniform-" + ds[0]
+    return "dtype:int-float-mixed" if any(d in FLOATS for d in ds) else "dtype:int-int-mixed"
+
+
+def float64_twin(case):
+    c = {k: v for k, v in case.items() if k != "dtypes"}
+    return c
+
+
+def with_dtypes(rng, case, unsigned=False):
+    """the same kind of case with every data operand stored in a drawn dtype.  Drawn per case: float32 for everything /
+    float32-float64 mixtures (dyadic values unchanged);  or integer-valued data (every data operand rounded - or, for
+    linear scores, first scaled by 4 - so that ties between operands and the interval order survive) stored in one integer
+    dtype for everything, in independent integer / float / (rarely) bool dtypes per operand; an operand holding NaN stays
+    in float storage.  unsigned=True: the integer-valued data is shifted to be >= 0 (angles: taken mod 360) and at least
+    one operand is stored as uint8 / uint16."""
+    c = {k: (dict(v) if isinstance(v, dict) else v) for k, v in case.items()}
+    ops = data_ops(c)
+    ang = is_angular_kind(c["kind"])
+    r = rng.random()
+    if not unsigned and r < 0.3:
+        if r < 0.15:
+            dts = {k: "float32" for k in ops}
+        else:
+            dts = {k: rng.choice(FLOATS) for k in ops}
+            dts[rng.choice(ops)] = "float32"
+        c["dtypes"] = dts
+        return c
+    scale = 1 if ang else rng.choice([1, 1, 4])
+    full = {k: list(c[k]["data"]) for k in ops}                       # the fractional (dyadic) values, before rounding
+    for k in ops:
+        c[k]["data"] = [rounded(x, scale) for x in c[k]["data"]]
+    if unsigned:
+        if ang:
+            for k in ops:
+                c[k]["data"] = [x if x == "nan" else S(ang360(Fraction(x))) for x in c[k]["data"]]
+        else:
+            lo = min([Fraction(x) for k in ops for x in c[k]["data"] if x != "nan"] or [Fraction(0)])
+            for k in ops:
+                c[k]["data"] = [x if x == "nan" else S(Fraction(x) - lo) for x in c[k]["data"]]
+    pool = (UNSIGNED + UNSIGNED + SIGNED + FLOATS) if unsigned else (SIGNED + SIGNED + FLOATS + ["bool"])
+    r = rng.random()
+    if r < 0.35:
+        one = rng.choice(UNSIGNED if unsigned else SIGNED)
+        dts = {k: one for k in ops}
+    elif r < 0.5 and not unsigned:
+        one = rng.choice(["int8", "int8", "int16", "bool"])            # the narrow end: where the library's own arithmetic is tight
+        dts = {k: rng.choice([one, "int8"]) for k in ops}
+    else:
+        dts = {k: rng.choice(pool) for k in ops}
+        if unsigned and not any(d in UNSIGNED for d in dts.values()):
+            dts[rng.choice(ops)] = rng.choice(UNSIGNED)
+        if not unsigned and scale == 1 and rng.random() < 0.5:
+            # integer storage next to FRACTIONAL float storage: the float operands keep their dyadic values (a cast of one
+            # operand / of the result to another operand's integer dtype then changes the value).  Interval ends: the
+            # integer-stored end is rounded outwards so that lower <= upper survives
+            for k in ops:
+                if dts[k] in FLOATS:
+                    c[k]["data"] = list(full[k])
+            if len(ops) == 3:
+                if dts["lower"] not in FLOATS:
+                    c["lower"]["data"] = [x if x == "nan" else S(Fraction(math.floor(Fraction(x)))) for x in full["lower"]]
+                if dts["upper"] not in FLOATS:
+                    c["upper"]["data"] = [x if x == "nan" else S(Fraction(math.ceil(Fraction(x)))) for x in full["upper"]]
+    if len(ops) == 3 and "bool" in (dts["lower"], dts["upper"]):
+        # 0/1 interval ends only together (the order lower <= upper must survive), and then in the same storage
+        dts["lower"] = dts["upper"] = "bool"
+        if any(x == "nan" for k in ("lower", "upper") for x in c[k]["data"]):
+            dts["lower"] = dts["upper"] = "float32"
+    for k in ops:
+        data = c[k]["data"]
+        if any(x == "nan" for x in data):
+            if dts[k] not in FLOATS:
+                dts[k] = rng.choice(FLOATS)
+            continue
+        if dts[k] == "bool":
+            c[k]["data"] = [S(1 if Fraction(x) > 0 else 0) for x in data]
+        elif dts[k] not in FLOATS:
+            info = np.iinfo(dts[k])
+            if not all(info.min <= Fraction(x) <= info.max for x in data):
+                dts[k] = "uint16" if (unsigned and dts[k] == "uint8") else "int64"
+    if unsigned and not any(d in UNSIGNED for d in dts.values()):
+        return None                                                     # every operand holds NaN: no unsigned storage possible
+    c["dtypes"] = dts
+    return c
+
+
+def dtype_cases(rng, n, unsigned=False, malformed_p=0.0):
+    """n random cases over every kind + one systematic round (every xarray-level function x every request spelling x
+    without / with fractional float64 weights), each with drawn storage dtypes"""
+    base = [gen_case(rng, ALL_KINDS[i % len(ALL_KINDS)] if i < 4 * len(ALL_KINDS) else None, malformed_p=malformed_p) for i in range(n)]
+    if not unsigned:
+        base += sweep_cases(rng, 1)
+    out = [with_dtypes(rng, c, unsigned) for c in base]
+    return [c for c in out if c is not None]
+
+
 # ----------------------------------------------------------------------------- implementation side
+def mkd(case, name):
+    """operand `name` of the case in its storage dtype (case["dtypes"], default float64)"""
+    return mk(case[name], dtype_of(case, name))
+
+
 def run_impl(case):
     """returns {"err": cls} or {"cells": {var: [floats]}} with cells ordered like fibres(case)"""
     import scores.continuous as sc
@@ -426,7 +651,7 @@ def run_impl(case):
     try:
         with np.errstate(all="ignore"):
             if kind in ("qis", "interval"):
-                lo, up, ob = mk(case["lower"]), mk(case["upper"]), mk(case["obs"])
+                lo, up, ob = mkd(case, "lower"), mkd(case, "upper"), mkd(case, "obs")
                 if case["weights"] is not None:
                     kw["weights"] = mk(case["weights"])
                 if kind == "qis":
@@ -434,7 +659,7 @@ def run_impl(case):
                 else:
                     res = sc.interval_score(lo, up, ob, F(case["params"]["interval_range"]), **kw)
                 return {"cells": {str(v): flat_result(res[v], P) for v in res.data_vars}}
-            f, o = mk(case["fcst"]), mk(case["obs"])
+            f, o = mkd(case, "fcst"), mkd(case, "obs")
             if kind.startswith("pandas_"):
                 fs, os_ = pd.Series(f.values), pd.Series(o.values)
                 base = kind[len("pandas_"):]
@@ -635,7 +860,7 @@ def expected_from(case, outs, stage2=None, textbook=False):
     return {"cells": {"value": list(outs)}}
 
 
-def same(impl, exp):
+def same(impl, exp, rtol=1e-9):
     """compare run_impl output with expected; returns (ok, detail)"""
     if "err" in exp:
         return ("err" in impl and impl["err"] == exp["err"]), "exception-class"
@@ -648,7 +873,7 @@ def same(impl, exp):
         if len(iv) != len(ev):
             return False, "shape"
         for a, b in zip(iv, ev):
-            ok = core.close_ff(a, b) if isinstance(b, float) else core.close(a, b)
+            ok = core.close_ff(a, b, rtol=rtol, atol=rtol / 1000) if isinstance(b, float) else core.close(a, b, rtol=rtol, atol=rtol / 1000)
             if not ok:
                 return False, f"value:{var}"
     return True, ""
@@ -665,6 +890,12 @@ def tags_of(case, impl):
     t["weights"] = case.get("weights") is not None
     t["req"] = next(iter(case["req"]), "none")
     t["spelling"] = req_spelling(case["req"])
+    if case.get("dtypes"):
+        t["dtype_class"] = dtype_class(case)
+        t["dtypes"] = ",".join(k + "=" + dtype_of(case, k) for k in data_ops(case))
+        d = dtype_defect(case)
+        if d:
+            t["defect"] = d
     return t
 
 
@@ -711,6 +942,19 @@ def account(ctx, batch, kind_, cases, results, theorem_of=None):
     for c, (impl, exp) in zip(cases, results):
         ctx.case(batch, c, nontrivial=nontrivial(impl, c))
         ctx.tag("kind:" + c["kind"])
+        if c.get("dtypes"):
+            ctx.tag(dtype_class(c))
+            for k in data_ops(c):
+                ctx.tag("dtype-of-" + ("obs" if k == "obs" else "fcst") + ":" + dtype_of(c, k))
+            ctx.tag("dtype-tolerance:" + ("float32-1e-5" if loose(c) else "1e-9"))
+            d = dtype_defect(c)
+            if d:
+                ctx.tag("dtype-defect-class:" + d)
+                if kind_ == "correspondence":
+                    # the model (values only, no storage dtype) does not describe the unchanged code on the documented
+                    # defect classes; the property oracle still runs them (known findings)
+                    ctx.tag("dtype-defect-class-skipped-in-correspondence")
+                    continue
         ctx.tag("req:" + req_spelling(c["req"]) + ("+weights" if c.get("weights") is not None else ""))
         if c.get("malformed"):
             ctx.tag("malformed")
@@ -718,7 +962,7 @@ def account(ctx, batch, kind_, cases, results, theorem_of=None):
             ctx.tag("impl-raises")
         elif any(math.isnan(x) for v in impl["cells"].values() for x in v):
             ctx.tag("nan-output")
-        ok, why = same(impl, exp)
+        ok, why = same(impl, exp, tol_of(c))
         if not ok:
             ctx.fail(batch, kind_, c["kind"], why, c, observed=impl, expected=exp, tags=tags_of(c, impl),
                      theorem=(theorem_of or {}).get(c["kind"]))
@@ -733,6 +977,9 @@ def correspondence(ctx):
     account(ctx, "impl-vs-model", "correspondence", cases, res)
     sw = sweep_cases(rng, ctx.n(1, 6))
     account(ctx, "impl-vs-model-request-x-weights-sweep", "correspondence", sw, evaluate(sw, spec=False))
+    # storage dtypes: the same model (a function of the values) against the code fed integer / float32 / bool / mixed storage
+    dc = dtype_cases(rng, ctx.n(350, 8000), malformed_p=0.05)
+    account(ctx, "impl-vs-model-storage-dtypes", "correspondence", dc, evaluate(dc, spec=False))
     # angular difference itself (public helper), incl. values far outside [0, 360)
     pairs = []
     for _ in range(ctx.n(300, 5000)):
@@ -1005,6 +1252,16 @@ def relation_failures(rc):
     return bad
 
 
+def twin_failure(case):
+    """relation between two implementation runs: the same values stored as float64 give the same result (same exception
+    class).  returns None or (what, observed with the storage dtypes, observed with float64 storage)"""
+    a, b = run_impl(case), run_impl(float64_twin(case))
+    ok, why = same(a, b if "err" in b else {"cells": {k: [float(x) for x in v] for k, v in b["cells"].items()}}, tol_of(case))
+    if ok and "err" not in b and set(a.get("cells", {})) != set(b["cells"]):
+        ok, why = False, "variables"
+    return None if ok else (why, a, b)
+
+
 def oracle(ctx, boost):
     rng = ctx.rng
     mult = 5 if boost else 1
@@ -1023,6 +1280,18 @@ def oracle(ctx, boost):
         b = rng.choice([a, a + 180, a - 180, a + 360 * rng.randint(-3, 3), core.dyadic(rng, -1500, 1500, 4)])
         pairs.append((a, b))
     check_angular(ctx, "angular-vs-textbook-spec", "property", pairs, spec=True)
+    # ---- storage dtypes of the data (values unchanged): against the textbook Spec of the VALUES, and against the same
+    # values stored as float64; unsigned storage in its own batch
+    dc = dtype_cases(rng, ctx.n(450, 10000) * mult)
+    account(ctx, "impl-vs-textbook-spec-storage-dtypes", "property", dc, evaluate(dc, spec=True), THEOREM_OF)
+    du = dtype_cases(rng, ctx.n(150, 3000) * mult, unsigned=True)
+    account(ctx, "impl-vs-textbook-spec-unsigned-storage", "property", du, evaluate(du, spec=True), THEOREM_OF)
+    for c in dc + du:
+        ctx.case("storage-dtype-vs-float64-storage", dict(c, twin64=True))
+        bad = twin_failure(c)
+        if bad:
+            ctx.fail("storage-dtype-vs-float64-storage", "property", c["kind"], "differs-from-float64-storage:" + bad[0],
+                     dict(c, twin64=True), observed=bad[1], expected=bad[2], tags=tags_of(c, None), theorem=THEOREM_OF.get(c["kind"]))
     rcs = relation_cases(rng, ctx.n(120, 2500) * mult)
     for rc in rcs:
         ctx.case("relational-laws", rc)
@@ -1042,6 +1311,8 @@ def replay(ctx, payload):
         c2 = core.Ctx("C05", "quick", 0)
         check_angular(c2, "replay", "property", [(F(case["a"]), F(case["b"]))], spec=True)
         return bool(c2.failures)
+    if case.get("twin64"):
+        return twin_failure({k: v for k, v in case.items() if k != "twin64"}) is not None
     (impl, exp), = evaluate([case], spec=True)
-    ok, _ = same(impl, exp)
+    ok, _ = same(impl, exp, tol_of(case))
     return not ok
